@@ -595,6 +595,10 @@ func stateFoundArrayItemBeginOrEmpty(s *Scanner, c byte) state {
 }
 
 func stateFoundArrayItemBegin(s *Scanner, c byte) state {
+	if s.isNewLine(c) && s.annotation == annotationNone {
+		// The next item starts on its own line, it can be annotated again.
+		s.allowAnnotation = true
+	}
 	if s.isCommentStart(c) {
 		s.switchToComment()
 		return scanContinue
